@@ -591,6 +591,8 @@ def _run_steps(mk, ctx, steps, readonly=False):
                 r, exc = None, ex
             if name == "transform" and exc is None:
                 scores = np.array(r, copy=True)
+                if readonly:
+                    scores.flags.writeable = False
             if name == "fit" and exc is None:
                 r = {k: v for k, v in e.__dict__.items()}
             results.append((name, r, exc))
@@ -606,6 +608,7 @@ def _est(case):
     viol = []
     U.poison("nan")
     snap_ctx0 = {k: U.deep(v) for k, v in ctx.items()}
+    heap0 = U.heap_spec([("s", [ctx["config"]])]) if ("config" in ctx and est == "mfpca_cov") else None
     e = mk()
     cfg0 = _config_of(e)
     raw0 = _raw_config(e)
@@ -618,11 +621,14 @@ def _est(case):
         c = dict(ctx)
         c["scores"] = scores
         before_ctx = {k: U.deep(v) for k, v in ctx.items()}
+        before_scores = U.deep(scores)
         try:
             r = f(e, c)
             exc = None
         except Exception as ex:  # noqa: BLE001
             r, exc = None, ex
+        if U.diff_paths(before_scores, U.deep(scores)):
+            viol.append(_viol("inputs_unchanged", entry, f"{name} changed the score array it was given", ["input_mutated"]))
         recs.append(dict(step=name, status="ok" if exc is None else "error:" + err_class(exc), msg="" if exc is None else str(exc)[:100]))
         for k, v in ctx.items():
             d = U.diff_paths(before_ctx[k], U.deep(v))
@@ -690,8 +696,8 @@ def _est(case):
         if d and not any(v["clause"] in ("inputs_unchanged", "config_unchanged") for v in viol):
             viol.append(_viol("inputs_unchanged", f"{cls}.{steps[0][0]}", f"`{k}` changed over the history at {d[:3]}", ["input_mutated"]))
     out = dict(recs=recs, viol=_dedupe(viol))
-    if "config" in ctx and est == "mfpca_cov":
-        out["heap"], out["roots"] = U.heap_spec([("s", [ctx["config"]])])
+    if heap0 is not None:
+        out["heap"], out["roots"] = heap0
     return out
 
 
